@@ -123,5 +123,5 @@ def streams(tier, rng):
             if x != y:
                 res.append((i, 'leak', 'message %r behaves differently after %r than on a fresh context\n  after A: %s\n  fresh   : %s' % (B, As, x[:400], y[:400])))
         return res
-    yield {'name': 'pairs', 'cases': cases, 'project': project, 'post': post,
+    yield {'name': 'pairs', 'coqcheck': True, 'cases': cases, 'project': project, 'post': post,
            'nontrivial': lambda c, o: c if o.count(' H') >= 2 else None}
